@@ -7,6 +7,7 @@ import (
 	"time"
 
 	"github.com/honeycombio/refinery/collect/cache"
+	"github.com/honeycombio/refinery/sample"
 	"github.com/honeycombio/refinery/config"
 	zz "github.com/honeycombio/refinery/internal/zzverif"
 )
@@ -254,4 +255,44 @@ func Harness_C01_C31_reload_resize() {
 			zz.Assert(c.tx.count(late[t].sp.Event) == 1, "[C01,C31] late span of a remembered kept trace is forwarded")
 		}
 	}
+}
+
+// C14 (decision time): makeDecision selects the sampler with the same key ingestion used
+// (Config.DetermineSamplerKey): environment for environment keys, (prefixed) dataset for classic keys.
+func Harness_C14_decision_selector() {
+	zz.MustCover("(*github.com/honeycombio/refinery/collect.CollectorWorker).makeDecision")
+	prefix := []string{"", "pfx"}[zz.Choose("datasetPrefix", 2)]
+	classic := zz.NondetBool("classicKey")
+	cfg := &config.MockConfig{
+		GetTracesConfigVal: config.TracesConfig{SendDelay: config.Duration(2 * time.Second), TraceTimeout: config.Duration(60 * time.Second), SendTicker: config.Duration(100 * time.Millisecond)},
+		DatasetPrefix:      prefix,
+	}
+	c := verifNewCW(cfg, 10)
+	apiKey := "hcaik_0123456789abcdefghijklmnopqrstuvwxyz0123456789abcdefghijkl"
+	if classic {
+		apiKey = "0123456789abcdef0123456789abcdef"
+	}
+	// one sampler per possible selector; only the right one may be consulted
+	mk := func() *verifSampler {
+		return &verifSampler{rate: map[string]uint{"A": 1}, keep: map[string]bool{"A": true}, calls: map[string]int{}}
+	}
+	byEnv, byDataset, byPrefixed := mk(), mk(), mk()
+	c.w.datasetSamplers = map[string]sample.Sampler{"env": byEnv, "d": byDataset, "pfx.d": byPrefixed}
+	c.setNow(1000)
+	c.start()
+	sp := c.span("A", true, 1)
+	sp.APIKey = apiKey
+	zz.Assert(c.i.AddSpan(sp) == nil, "span admitted")
+	c.barrier()
+	c.tickAt(1000 + int64(3*time.Second))
+	want := byEnv
+	if classic {
+		want = byDataset
+		if prefix != "" {
+			want = byPrefixed
+		}
+	}
+	zz.Assert(want.calls["A"] == 1, "the trace is sampled by the sampler configured for its destination (environment, or DatasetPrefix.dataset for classic keys)")
+	zz.Assert(byEnv.calls["A"]+byDataset.calls["A"]+byPrefixed.calls["A"] == 1, "and by no other")
+	zz.Assert(cfg.DetermineSamplerKey(apiKey, "env", "d") == map[*verifSampler]string{byEnv: "env", byDataset: "d", byPrefixed: "pfx.d"}[want], "the same key ingestion uses to pick the fields to extract")
 }
